@@ -1,0 +1,25 @@
+//go:build !verif
+
+// Copyright (c) The Thanos Community Authors.
+// Licensed under the Apache License 2.0.
+
+package execution
+
+import (
+	"github.com/prometheus/prometheus/promql/parser"
+	"github.com/prometheus/prometheus/storage"
+
+	"github.com/thanos-community/promql-engine/execution/model"
+	engstore "github.com/thanos-community/promql-engine/execution/storage"
+	"github.com/thanos-community/promql-engine/query"
+)
+
+// verifEnter and verifWrap are verification hooks. Without the verif build tag
+// they do nothing.
+func verifEnter(expr parser.Expr, _ *engstore.SelectorPool, _ *query.Options, _ storage.SelectHints) (parser.Expr, model.VectorOperator, error, bool) {
+	return expr, nil, nil, false
+}
+
+func verifWrap(op model.VectorOperator, _ parser.Expr, _ *query.Options) model.VectorOperator {
+	return op
+}
